@@ -6,6 +6,8 @@ evicts by are total orders consistent with the fee rate they stand for, per-stat
 exactly the entry's contribution, the reported TxEntryInfo is the entry's aggregates.  The link/edge containers
 (HashMap/HashSet/multi_index_map keyed by hashes) are outside.
 """
+import os
+import re
 from mir2smt.ob import *
 from mir2smt import terms as T
 from mir2smt.exec import OpaqueV, IntV, BoolV, AggV, EnumV, RefV, UNIT, Exec, Stop, mk_option
@@ -506,17 +508,17 @@ def m8_links_recorded_for_a_new_entry(S):
         (E.rx(r"TxEntry::proposal_short_id$"), lambda ex, c, a, d: OpaqueV("this_id", d)),
         (E.rx(r"TxEntry::transaction$"), lambda ex, c, a, d: ex.ctx.ref_to(OpaqueV("this_tx", "TransactionView"))),
         (E.rx(r"TransactionView::output_pts$"), lambda ex, c, a, d: ListV((OpaqueV("out0", "OutPoint"),), "Vec<OutPoint>")),
-        (E.rx(r"HashSet::<[\w:]*ProposalShortId(, \w+)?>::new$"), lambda ex, c, a, d: ListV((), "children")),
+        (E.rx(r"HashSet::<[\w:]*ProposalShortId(, [\w:]+)?>::new$"), lambda ex, c, a, d: ListV((), "children")),
         (E.rx(r"Edges::get_deps_ref$"), lambda ex, c, a, d: mk_option(has_reader.t, ex.ctx.ref_to(ListV((OpaqueV("reader", "ProposalShortId"),), "deps")), d)),
         (E.rx(r"Edges::get_input_ref$"), lambda ex, c, a, d: mk_option(has_consumer.t, ex.ctx.ref_to(OpaqueV("consumer", "ProposalShortId")), d)),
         (E.rx(r"Option::<&HashSet<.*>>::cloned$|Option::<&[\w:]*ProposalShortId>::cloned$"), lambda ex, c, a, d: (lambda o: EnumV(o.disc, tuple((k, tuple(deref(ex, x) for x in fs)) for k, fs in o.payloads), d))(deref(ex, a[0]))),
-        (E.rx(r"<HashSet<[\w:]*ProposalShortId(, \w+)?> as Extend<.*>>::extend"), set_extend),
-        (E.rx(r"HashSet::<[\w:]*ProposalShortId(, \w+)?>::insert$"), set_insert),
-        (E.rx(r"HashSet::<[\w:]*ProposalShortId(, \w+)?>::is_empty$"), lambda ex, c, a, d: BoolV(len(deref(ex, a[0]).items) == 0)),
-        (E.rx(r"<&HashSet<[\w:]*ProposalShortId(, \w+)?> as IntoIterator>::into_iter$"), lambda ex, c, a, d: AggV((deref(ex, a[0]), IntV(0, "usize")), "ListIterRef")),
+        (E.rx(r"<HashSet<[\w:]*ProposalShortId(, [\w:]+)?> as Extend<.*>>::extend"), set_extend),
+        (E.rx(r"HashSet::<[\w:]*ProposalShortId(, [\w:]+)?>::insert$"), set_insert),
+        (E.rx(r"HashSet::<[\w:]*ProposalShortId(, [\w:]+)?>::is_empty$"), lambda ex, c, a, d: BoolV(len(deref(ex, a[0]).items) == 0)),
+        (E.rx(r"<&HashSet<[\w:]*ProposalShortId(, [\w:]+)?> as IntoIterator>::into_iter$"), lambda ex, c, a, d: AggV((deref(ex, a[0]), IntV(0, "usize")), "ListIterRef")),
         (E.rx(r"ProposalShortId as Clone>::clone$"), lambda ex, c, a, d: deref(ex, a[0])),
         (E.rx(r"TxLinksMap::add_parent$"), lg("add_parent", lambda ex, a, d: mk_option(True, BoolV(True), d))),
-        (E.rx(r"HashMap::<[\w:]*ProposalShortId, [\w:]*TxLinks(, \w+)?>::get_mut"), lambda ex, c, a, d: (log.append(("links_of", [nmv(ex, a[1])], list(ex.pc))), mk_option(True, ex.ctx.ref_to(AggV((OpaqueV("own_parents", "?"), ListV((), "links_children")), "TxLinks")), d))[1]),
+        (E.rx(r"HashMap::<[\w:]*ProposalShortId, [\w:]*TxLinks(, [\w:]+)?>::get_mut"), lambda ex, c, a, d: (log.append(("links_of", [nmv(ex, a[1])], list(ex.pc))), mk_option(True, ex.ctx.ref_to(AggV((OpaqueV("own_parents", "?"), ListV((), "links_children")), "TxLinks")), d))[1]),
         (E.rx(r"PoolMap::update_descendants_index_key$"), lg("update_descendants")),
         (E.rx(r"PoolMap::update_ancestors_index_key$"), lg("update_ancestors")),
     ] + list(E.LIST_ADAPTORS)
@@ -544,6 +546,261 @@ def m8_links_recorded_for_a_new_entry(S):
     S.witness(ctx, ob, "reach_both_kinds_of_children", [], T.and_(both, anc_all))
 
 
-OBLIGATIONS = [m1_aggregate_steps, m2_initial_and_reset, m3_score_key, m4_evict_key, m5_reported_info, m6_score_key_transitive, m7_counters, m8_links_recorded_for_a_new_entry]
+def m9_aggregates_after_a_late_parent(S):
+    """One `record_entry_descendants` step from a valid pool state in which the new entry P has a pooled ancestor G (linked by check_and_record_ancestors) and a pooled child C that
+    was inserted BEFORE it (P was detached by a reorganisation and is re-added while C, which spends its output, stayed): the real update_descendants_index_key /
+    update_ancestors_index_key / add_*_weight code is executed over a three-entry model of the entry table.  Afterwards every aggregate must equal a recomputation from the
+    contents G -> P -> C: P.descendants = P + C, G.descendants = G + P + C, C.ancestors = C + P + G (counts and sizes)."""
+    from mir2smt.exec import ListV
+    ob = "C11.m9"
+    f = [x for x in S.prog.funcs if x.kind == "fn" and x.short == "record_entry_descendants" and "component/pool_map.rs" in x.name and "{closure" not in x.name]
+    if len(f) != 1:
+        raise Inconclusive(f"record_entry_descendants: {len(f)} candidates")
+    ctx = S.ctx(unwind=8)
+    ctx.uninterpreted_unknown_calls = True
+    pe = struct_fields("tx-pool/src/component/pool_map.rs", "PoolEntry")
+    ents, terms = {}, {}
+    for nm_ in ("G", "P", "C"):
+        v, t, order = entry(ctx, nm_)
+        ents[nm_] = AggV(tuple(v if fld == "inner" else OpaqueV(f"{nm_}.{fld}", "?") for fld in pe), "PoolEntry")
+        terms[nm_] = t
+    small = 1 << 32
+    pre = []
+    for nm_ in ("G", "P", "C"):
+        t = terms[nm_]
+        pre += [T.le(t["size"], small), T.le(t["cycles"], small), T.le(t["fee"], small)]
+    own = lambda n, k: terms[n][k]
+    # valid state before the step (see docstring): G and C stand alone, P already knows its ancestor G
+    for n, anc, desc in (("G", ["G"], ["G"]), ("C", ["C"], ["C"]), ("P", ["P", "G"], ["P"])):
+        t = terms[n]
+        for kind, members in (("ancestors", anc), ("descendants", desc)):
+            pre.append(T.eq(t[f"{kind}_count"], len(members)))
+            for k in ("size", "cycles", "fee"):
+                tot = 0
+                for m_ in members:
+                    tot = T.add(tot, own(m_, k))
+                pre.append(T.eq(t[f"{kind}_{k}"], tot))
+
+    def nmv(ex, v):
+        v = deref(ex, v)
+        return getattr(v, "name", None) or type(v).__name__
+    ids = {"idG": "G", "idP": "P", "idC": "C"}
+
+    def cur_entry(ex, n):
+        val = ents[n]
+        for e in ex.log:
+            if e[0] == "entry_set" and e[2][0] == n:
+                val = e[2][1]
+        return val
+
+    def modify_by_id(ex, c, a, d):
+        n = ids.get(nmv(ex, a[1]))
+        if n is None:
+            raise Stop("modify_by_id of an unknown id " + nmv(ex, a[1]))
+        cell = ex.ctx.ref_to(cur_entry(ex, n))
+        ex.call_value(ex.top_frame, a[2], [cell], "()")
+        ex.log.append(("entry_set", c, [n, deref(ex, cell)], list(ex.pc)))
+        return mk_option(True, cell, d)
+
+    def linked(ex):
+        return any(e[0] == "link" and e[2] == ["idC", "idP"] for e in ex.log)
+    ctx.env = list(E.LOGGING_OFF) + [
+        (E.rx(r"TxEntry::proposal_short_id$"), lambda ex, c, a, d: OpaqueV("idP", d)),
+        (E.rx(r"TxEntry::transaction$"), lambda ex, c, a, d: ex.ctx.ref_to(OpaqueV("txP", "TransactionView"))),
+        (E.rx(r"TransactionView::output_pts$"), lambda ex, c, a, d: ListV((OpaqueV("P.out0", "OutPoint"),), "Vec<OutPoint>")),
+        (E.rx(r"HashSet::<[\w:]*ProposalShortId(, [\w:]+)?>::new$"), lambda ex, c, a, d: ListV((), "children")),
+        (E.rx(r"Edges::get_deps_ref$"), lambda ex, c, a, d: mk_option(False, None, d)),
+        (E.rx(r"Edges::get_input_ref$"), lambda ex, c, a, d: mk_option(True, ex.ctx.ref_to(OpaqueV("idC", "ProposalShortId")), d)),
+        (E.rx(r"Option::<&HashSet<.*>>::cloned$|Option::<&[\w:]*ProposalShortId>::cloned$"), lambda ex, c, a, d: (lambda o: EnumV(o.disc, tuple((k, tuple(deref(ex, x) for x in fs)) for k, fs in o.payloads), d))(deref(ex, a[0]))),
+        (E.rx(r"HashSet::<[\w:]*ProposalShortId(, [\w:]+)?>::insert$"), lambda ex, c, a, d: (__import__("mir2smt.builtins", fromlist=["_wr"])._wr(ex, a[0], ListV(tuple(deref(ex, a[0]).items) + (deref(ex, a[1]),), "children")), BoolV(True))[1]),
+        (E.rx(r"<HashSet<[\w:]*ProposalShortId(, [\w:]+)?> as Extend<.*>>::extend"), lambda ex, c, a, d: UNIT),
+        (E.rx(r"HashSet::<[\w:]*ProposalShortId(, [\w:]+)?>::is_empty$"), lambda ex, c, a, d: BoolV(len(deref(ex, a[0]).items) == 0)),
+        (E.rx(r"<&HashSet<[\w:]*ProposalShortId(, [\w:]+)?> as IntoIterator>::into_iter$"), lambda ex, c, a, d: AggV((deref(ex, a[0]), IntV(0, "usize")), "ListIterRef")),
+        (E.rx(r"ProposalShortId as Clone>::clone$"), lambda ex, c, a, d: deref(ex, a[0])),
+        (E.rx(r"TxLinksMap::add_parent$"), lambda ex, c, a, d: (ex.log.append(("link", c, [nmv(ex, a[1]), nmv(ex, a[2])], list(ex.pc))), mk_option(True, BoolV(True), d))[1]),
+        (E.rx(r"HashMap::<[\w:]*ProposalShortId, [\w:]*TxLinks(, [\w:]+)?>::get_mut"), lambda ex, c, a, d: mk_option(True, ex.ctx.ref_to(AggV((OpaqueV("own_parents", "?"), ListV((), "links_children")), "TxLinks")), d)),
+        (E.rx(r"TxLinksMap::calc_descendants$"), lambda ex, c, a, d: ListV((OpaqueV("idC", "ProposalShortId"),) if linked(ex) else (), "set")),
+        (E.rx(r"TxLinksMap::calc_ancestors$"), lambda ex, c, a, d: ListV((OpaqueV("idG", "ProposalShortId"),), "set")),
+        (E.rx(r"MultiIndexPoolEntryMap::modify_by_id::<"), modify_by_id),
+        (E.rx(r"TxEntry::as_evict_key$|TxEntry::as_score_key$"), E.opaque_call()),
+        (E.rx(r"get_transaction_weight$"), lambda ex, c, a, d: ex.ctx.fresh_of_type("w", d)),
+    ] + list(E.LIST_ADAPTORS)
+    pm = OpaqueV("pm", "PoolMap")
+    pentry = ents["P"].fields[pe.index("inner")]
+    ps = S.run(ctx, f[0], [ctx.ref_to(pm), ctx.ref_to(pentry)])
+    S.prove(ctx, ob, "step_no_panic", pre, T.not_(cond_of(panics(ps))))
+    rs = returns(ps)
+    if len(rs) != 1:
+        raise Inconclusive(f"late parent step: {len(rs)} returning paths")
+    order = struct_fields(ENTRY_RS, "TxEntry")
+
+    def final(n, fld):
+        val = ents[n]
+        for e in rs[0].log:
+            if e[0] == "entry_set" and e[2][0] == n:
+                val = e[2][1]
+        return as_int(val.fields[pe.index("inner")].fields[order.index(fld)])
+    S.prove(ctx, ob, "child_is_linked_to_the_late_parent", [], bool(any(e[0] == "link" and e[2] == ["idC", "idP"] for e in rs[0].log)))
+    S.prove(ctx, ob, "child_learns_the_late_parent_as_ancestor", pre, T.ge(final("C", "ancestors_count"), 2))
+    S.prove(ctx, ob, "ancestor_learns_the_late_parent_as_descendant", pre, T.ge(final("G", "descendants_count"), 2))
+    S.prove(ctx, ob, "late_parent_descendant_aggregates_equal_recomputation", pre,
+            T.and_(T.eq(final("P", "descendants_count"), 2), T.eq(final("P", "descendants_size"), T.add(own("P", "size"), own("C", "size")))))
+    S.prove(ctx, ob, "ancestor_descendant_aggregates_equal_recomputation", pre,
+            T.and_(T.eq(final("G", "descendants_count"), 3), T.eq(final("G", "descendants_size"), T.add(T.add(own("G", "size"), own("P", "size")), own("C", "size")))))
+    S.prove(ctx, ob, "child_ancestor_aggregates_equal_recomputation", pre,
+            T.and_(T.eq(final("C", "ancestors_count"), 3), T.eq(final("C", "ancestors_size"), T.add(T.add(own("G", "size"), own("P", "size")), own("C", "size")))))
+    S.witness(ctx, ob, "reach", pre, T.gt(own("C", "size"), 1))
+
+
+def m10_aggregates_after_removing_a_subtree(S):
+    """One `PoolMap::remove_entry_and_descendants(P)` step (conflict resolution, eviction and RBF all remove a transaction together with its descendants) from the valid pool
+    state G -> P -> C, over a three-entry model of the entry table with the real remove_entry / update_*_index_key / sub_*_weight code: P and C leave the table and the
+    surviving ancestor G reports aggregates equal to a recomputation from what is left (itself only)."""
+    from mir2smt.exec import ListV
+    from mir2smt.builtins import _wr
+    ob = "C11.m10"
+    f = [x for x in S.prog.funcs if x.kind == "fn" and x.short == "remove_entry_and_descendants" and "component/pool_map.rs" in x.name and "{closure" not in x.name]
+    if len(f) != 1:
+        raise Inconclusive(f"remove_entry_and_descendants: {len(f)} candidates")
+    ctx = S.ctx(unwind=10)
+    ctx.uninterpreted_unknown_calls = True
+    ctx.max_paths = 200
+    pe = struct_fields("tx-pool/src/component/pool_map.rs", "PoolEntry")
+    order = struct_fields(ENTRY_RS, "TxEntry")
+    ents, terms = {}, {}
+    for nm_ in ("G", "P", "C"):
+        v, t, _ = entry(ctx, nm_)
+        ents[nm_] = AggV(tuple(v if fld == "inner" else OpaqueV(f"{nm_}.{fld}", "?") for fld in pe), "PoolEntry")
+        terms[nm_] = t
+    small = 1 << 32
+    pre = []
+    own = lambda n, k: terms[n][k]
+    for nm_ in ("G", "P", "C"):
+        pre += [T.le(own(nm_, "size"), small), T.le(own(nm_, "cycles"), small), T.le(own(nm_, "fee"), small)]
+    for n, anc, desc in (("G", ["G"], ["G", "P", "C"]), ("P", ["P", "G"], ["P", "C"]), ("C", ["C", "P", "G"], ["C"])):
+        for kind, members in (("ancestors", anc), ("descendants", desc)):
+            pre.append(T.eq(terms[n][f"{kind}_count"], len(members)))
+            for k in ("size", "cycles", "fee"):
+                tot = 0
+                for m_ in members:
+                    tot = T.add(tot, own(m_, k))
+                pre.append(T.eq(terms[n][f"{kind}_{k}"], tot))
+    ids = {"idG": "G", "idP": "P", "idC": "C"}
+    anc0 = {"G": [], "P": ["G"], "C": ["P", "G"]}
+    desc0 = {"G": ["P", "C"], "P": ["C"], "C": []}
+
+    def nmv(ex, v):
+        v = deref(ex, v)
+        return getattr(v, "name", None) or type(v).__name__
+
+    def which(ex, v):
+        n = ids.get(nmv(ex, v))
+        if n is None:
+            raise Stop("unknown id " + nmv(ex, v))
+        return n
+
+    def unlinked(ex):
+        return {e[2][0] for e in ex.log if e[0] == "unlink"}
+
+    def gone(ex):
+        return {e[2][0] for e in ex.log if e[0] == "removed"}
+
+    def cur_entry(ex, n):
+        val = ents[n]
+        for e in ex.log:
+            if e[0] == "entry_set" and e[2][0] == n:
+                val = e[2][1]
+        return val
+
+    def idv(n):
+        return OpaqueV("id" + n, "ProposalShortId")
+
+    def related(ex, n, table):
+        u = unlinked(ex)
+        if n in u:
+            return []
+        return [m_ for m_ in table[n] if m_ not in u]
+
+    def modify_by_id(ex, c, a, d):
+        n = which(ex, a[1])
+        if n in gone(ex):
+            return mk_option(False, None, d)
+        cell = ex.ctx.ref_to(cur_entry(ex, n))
+        ex.call_value(ex.top_frame, a[2], [cell], "()")
+        ex.log.append(("entry_set", c, [n, deref(ex, cell)], list(ex.pc)))
+        return mk_option(True, cell, d)
+
+    def remove_by_id(ex, c, a, d):
+        n = which(ex, a[1])
+        if n in gone(ex):
+            return mk_option(False, None, d)
+        val = cur_entry(ex, n)
+        ex.log.append(("removed", c, [n], list(ex.pc)))
+        return mk_option(True, val, d)
+
+    def get_by_id(ex, c, a, d):
+        n = which(ex, a[1])
+        if n in gone(ex):
+            return mk_option(False, None, d)
+        return mk_option(True, ex.ctx.ref_to(cur_entry(ex, n)), d)
+
+    def vec_extend(ex, c, a, d):
+        v, o = deref(ex, a[0]), deref(ex, a[1])
+        if not isinstance(v, ListV) or not isinstance(o, ListV):
+            raise Stop(f"Vec::extend of unmodelled collections {type(v).__name__} {str(v)[:80]} / {type(o).__name__} {str(o)[:120]}")
+        _wr(ex, a[0], ListV(tuple(v.items) + tuple(o.items), v.ty))
+        return UNIT
+
+    def unlink(ex, c, a, d):
+        ex.log.append(("unlink", c, [which(ex, a[1])], list(ex.pc)))
+        return UNIT
+    ctx.env = list(E.LOGGING_OFF) + [
+        (E.rx(r"TxEntry::proposal_short_id$"), lambda ex, c, a, d: idv(re.sub(r"\..*$", "", nmv(ex, deref(ex, a[0]).fields[order.index("rtx")])))),
+        (E.rx(r"PoolMap::calc_descendants$|TxLinksMap::calc_descendants$"), lambda ex, c, a, d: ListV(tuple(idv(m_) for m_ in related(ex, which(ex, a[1]), desc0)), "set")),
+        (E.rx(r"PoolMap::calc_ancestors$|TxLinksMap::calc_ancestors$"), lambda ex, c, a, d: ListV(tuple(idv(m_) for m_ in related(ex, which(ex, a[1]), anc0)), "set")),
+        (E.rx(r"<Vec<[\w:]*ProposalShortId> as Extend<.*>>::extend"), vec_extend),
+        (E.rx(r"ProposalShortId as (ToOwned|Clone)>::(to_owned|clone)$"), lambda ex, c, a, d: deref(ex, a[0])),
+        (E.rx(r"PoolMap::remove_entry_links$"), unlink),
+        (E.rx(r"PoolMap::(remove_entry_edges|track_entry_statics|update_stat_for_remove_tx)$"), lambda ex, c, a, d: UNIT),
+        (E.rx(r"MultiIndexPoolEntryMap::modify_by_id::<"), modify_by_id),
+        (E.rx(r"MultiIndexPoolEntryMap::remove_by_id(::<.*>)?$"), remove_by_id),
+        (E.rx(r"MultiIndexPoolEntryMap::get_by_id(::<.*>)?$"), get_by_id),
+        (E.rx(r"HashSet::<[\w:]*ProposalShortId(, [\w:]+)?>::contains"), lambda ex, c, a, d: BoolV(nmv(ex, a[1]) in [nmv(ex, x) for x in deref(ex, a[0]).items])),
+        (E.rx(r"<&HashSet<[\w:]*ProposalShortId(, [\w:]+)?> as IntoIterator>::into_iter$|<HashSet<[\w:]*ProposalShortId(, [\w:]+)?> as IntoIterator>::into_iter$"), lambda ex, c, a, d: AggV((deref(ex, a[0]), IntV(0, "usize")), "ListIterRef" if isinstance(a[0], RefV) else "ListIter")),
+        (E.rx(r"as Iterator>::cloned::<|as Iterator>::copied::<"), lambda ex, c, a, d: (lambda it: AggV((ListV(tuple(deref(ex, x) for x in it.fields[0].items), "Vec<?>"), it.fields[1]), "ListIter"))(deref(ex, a[0]))),
+        (E.rx(r"as Iterator>::collect::<.*HashSet"), lambda ex, c, a, d: (lambda it: ListV(tuple(it.fields[0].items[it.fields[1].t:]), "set"))(deref(ex, a[0]))),
+        (E.rx(r"TxEntry as Clone>::clone$"), lambda ex, c, a, d: deref(ex, a[0])),
+        (E.rx(r"TxEntry::as_evict_key$|TxEntry::as_score_key$|TxEntry::transaction$|TransactionView::hash$"), E.opaque_call()),
+        (E.rx(r"get_transaction_weight$"), lambda ex, c, a, d: ex.ctx.fresh_of_type("w", d)),
+    ] + list(E.LIST_ADAPTORS)
+    ps = S.run(ctx, f[0], [ctx.ref_to(OpaqueV("pm", "PoolMap")), ctx.ref_to(idv("P"))])
+    S.prove(ctx, ob, "step_no_panic", pre, T.not_(cond_of(panics(ps))))
+    rs = returns(ps)
+    if not rs:
+        raise Inconclusive("remove subtree step: no returning path")
+    bad_removed, bad_agg = [], []
+    for p in rs:
+        lg = p.log
+        if {e[2][0] for e in lg if e[0] == "removed"} != {"P", "C"}:
+            bad_removed.append(p.cond())
+
+        def final(n, fld, lg=lg):
+            val = ents[n]
+            for e in lg:
+                if e[0] == "entry_set" and e[2][0] == n:
+                    val = e[2][1]
+            return as_int(val.fields[pe.index("inner")].fields[order.index(fld)])
+        ok = T.and_(T.eq(final("G", "descendants_count"), 1), T.eq(final("G", "descendants_size"), own("G", "size")), T.eq(final("G", "descendants_cycles"), own("G", "cycles")),
+                    T.eq(final("G", "ancestors_count"), 1))
+        bad_agg.append(T.and_(p.cond(), T.not_(ok)))
+        if os.environ.get("VERIF_DEBUG"):
+            print("DEBUG m10 path", [(e[0], e[2][0]) for e in lg if e[0] in ("entry_set", "removed")], [str(c)[:160] for c in p.pc])
+    S.prove(ctx, ob, "the_transaction_and_its_descendant_leave_the_table", pre, T.not_(T.or_(*bad_removed)) if bad_removed else True)
+    S.prove(ctx, ob, "surviving_ancestor_aggregates_equal_recomputation", pre, T.not_(T.or_(*bad_agg)))
+    S.prove(ctx, ob, "every_valid_state_returns", pre, T.or_(*[p.cond() for p in rs]))
+    S.witness(ctx, ob, "reach", pre, T.gt(own("C", "size"), 1))
+
+
+OBLIGATIONS = [m1_aggregate_steps, m2_initial_and_reset, m3_score_key, m4_evict_key, m5_reported_info, m6_score_key_transitive, m7_counters, m8_links_recorded_for_a_new_entry, m9_aggregates_after_a_late_parent, m10_aggregates_after_removing_a_subtree]
 TECHNIQUE = "symbolic execution of rustc MIR -> integer-theory SMT (cvc5 + z3); counterexamples replayed in a native build of the same source files"
 DESIGN_REF = "DESIGN.md section 4 (C11)"
